@@ -82,6 +82,20 @@ CHECKS = {
              'from outside for every operator and five coefficient types; event sequence compared with the model.',
         technique='Rocq proof (invariant over operation sequences) + event-count correspondence',
         ref='DESIGN.md 4 (C10)'),
+    'C11': dict(
+        text='Theorems about Model/Tape.v (both interpreters of a registered function over ONE shared table of generated functions: the plain '
+             'path follows MultiVector method by method, the compiled path follows TapeRecorder / Registry / do_compile): for every body of an '
+             'expression language over the member surface (infix and method operators, numbers on either side of + - * and ^, / number, ** any '
+             'integer, grade, coefficient access with any spelling, duals, norm, normalized, nested registered calls also with number arguments), '
+             'every well-formed algebra, every commutative ring, any key tuples: if f(args) returns then alg.register(f)(args) returns the same '
+             'multivector (supported fragment), on EVERY body of the language the two never return different values, members outside the recorder '
+             'raise AttributeError, and the compiled function is independent of the storage order of its arguments.  Method tables are translated '
+             'from the source, the hand-modelled members are pinned.  PARTIAL: explicit calls of reflected dunders (x.__rmul__(y) ...) are covered '
+             'by the correspondence only; inv / div / sqrt enter as a storage-independent parameter (C07, C19); the symbolic=True route is proved for '
+             'one operator step, the rest by direct oracle.  Known findings F18 (symbolic sqrt), F19 (number literals printed with str), F20 '
+             '(python operators on coefficients).',
+        technique='Rocq proof (two fuel inductions over an executable model of both interpreters; table well-behavedness from the product theory) + in-Coq differential correspondence of recorded keys and values + direct oracle register / register(symbolic=True) vs f',
+        ref='DESIGN.md 4 (C11)'),
     'C12': dict(
         text='Theorems: every model operator commutes LITERALLY with any operation-preserving map of coefficients (substitution after '
              'operating = operating after substitution, any symbolic/numeric partition); polynomial evaluation is such a map for every '
@@ -122,11 +136,17 @@ CHECKS = {
         technique='Rocq proof (dictionary-fold invariants, swap-parity theorem lifted to spellings, iff characterisation by bind inversion) + in-Coq differential correspondence of all forms x spellings x malformed inputs',
         ref='DESIGN.md 4 (C15)'),
     'C16': dict(
-        text='Theorems: the operand-order table of all infix/reflected dunders is re-derived from multivector.py on every run and proved to '
-             'keep (left, right); indexing array-valued coefficients commutes literally with every operator (pointwise structure).  '
-             'numpy broadcasting, list/tuple/callable unwrapping are glue: differential checks of getitem/setitem exactness, numbers and '
-             'sequences on either side, nested callables.',
-        technique='Rocq proof on a table translated from the source + naturality theorem + differential correspondence',
+        text='Theorems: (a) the operand-order table of all infix / reflected dunders and the forwarding of every named method are re-derived from '
+             'multivector.py on every run and proved to keep (left, right); (b) indexing array-valued coefficients commutes literally with every '
+             'operator (pointwise structure); (c) about Model/Storage.v (__getitem__ / __setitem__ / shape / itermv / items / map for list-backed '
+             'and ndarray-backed values, one trailing axis, int / slice / tuple subscripts with CPython slice semantics): X[idx] keeps the keys and '
+             'holds exactly values[key][idx]; raising subscripts characterised; X[idx] = V changes only addressed entries whatever happens (frame, '
+             'incl. partial updates on exceptions), is blade by blade the assignment of V\'s coefficient of the same blade, round-trips, numbers '
+             'broadcast per blade; (d) OperatorDict._call_binary on arbitrary operand trees (numbers, multivectors, lists, tuples, nested '
+             'callables) equals a structural specification for every operator: scalar wrapping on either side, element-wise mapping with the '
+             'multivector on the correct side, callable unwrapping at any depth, first-error propagation, the algebra check.  numpy beyond '
+             '1-D / 2-D int / slice subscripts and python operator dispatch are not modelled: differential checks.',
+        technique='Rocq proof on a table translated from the source + naturality theorem + proofs about an executable model of storage / indexing / assignment / operand normalisation + in-Coq differential correspondence + direct oracles',
         ref='DESIGN.md 4 (C16)'),
     'C17': dict(
         text='Theorems about Model/Poly.v (polynomial.py statement by statement): compare is a strict total order; + - * neg pow are '
@@ -137,13 +157,14 @@ CHECKS = {
         technique='Rocq proof (structural induction on merge loops, leading-term argument); compare and the Polynomial methods __eq__/__bool__/__neg__/__add__/__mul__ translated from the source with kernel-checked bridge lemmas (fuel induction); structural differential correspondence',
         ref='DESIGN.md 4 (C17)'),
     'C18': dict(
-        text='PARTIAL.  Finite-domain theorem (bound in the statement): for every default-basis algebra with 1 <= d <= 4, all signature '
-             'orderings, start 0-2, all pairs of basis blades: M(e_I) M(e_J) = s M(e_IJ) and column 0 is the unit vector (exhaustive '
-             'vm_compute lifted with forallb_forall); the same check for the named custom bases 2DPGA, 3DPGA and for every custom basis the '
-             'correspondence explores (blade matrices built along the blade names - the repaired finding F10); unbounded in the operands for '
-             'every algebra that passes the check: linear, multiplicative, first column, frommatrix inverts, injective.  expr_as_matrix is not '
-             'modelled: direct oracle only (exploration).',
-        technique='Rocq proof: exhaustive kernel computation over a finite domain + unbounded linear-algebra lemmas; differential correspondence',
+        text='Theorems for EVERY well-formed algebra (any dimension d >= 1, signature ordering, start index, default or custom basis): the '
+             'blade matrices built by matrix_rep multiply like the blades, M(e_I) M(e_J) = s(I,J) M(e_IJ), and column 0 of M(e_I) is the I-th unit '
+             'vector - by the universal property of the sign table (any associative structure whose generators satisfy the Clifford relations), the '
+             'mixed-product property of the Kronecker construction and the ordering matrix being a signed permutation matrix; hence for all '
+             'operands asmatrix is linear, multiplicative, injective, frommatrix inverts it.  (The exhaustive d <= 4 computation is kept as an '
+             'independent cross-check, and shows that the model\'s single blades branch equals the code\'s combinations branch for default bases '
+             'd <= 4.)  PARTIAL only in that expr_as_matrix is not modelled: direct oracle (exploration).',
+        technique='Rocq proof (abstract algebra + induction on the Kronecker construction, no enumeration) + exhaustive kernel computation as cross-check + differential correspondence',
         ref='DESIGN.md 4 (C18)'),
     'C19': dict(
         text='PARTIAL.  Theorems about Model/Series.v for every well-formed algebra and every commutative Q-algebra of coefficients: the '
@@ -169,7 +190,7 @@ NOT_YET = {}
 for i in range(1, 21):
     pid = f'C{i:02d}'
     if pid not in CHECKS:
-        NOT_YET[pid] = 'check not built yet in this round (work in progress; no technique limitation claimed)'
+        NOT_YET[pid] = 'check not built (no technique limitation claimed)'
 
 
 def main():
